@@ -26,7 +26,10 @@
    * basic slicing clamps (":h" has min(h, n) elements, "h:" the rest);
    * assignment broadcasts: a source axis of length 1 is repeated over the
      destination axis, any other mismatch is "could not broadcast"
-     (ValueError, here Crash BroadcastError). *)
+     (ValueError, here Crash BroadcastError);
+   * since /repo e7c7a72 the transition is refused up front (ValueError) when a
+     half chunk of 1 faces min(new chunk, new size) >= 3 - the only case in
+     which the broadcast used to stretch data silently. *)
 From Coq Require Import ZArith List Bool Lia FMapPositive.
 From NGS Require Import Val Ints PyrScales.
 Import ListNotations.
@@ -123,6 +126,20 @@ Definition assign (b : buffer) (lo ext : t3) (src : arr) : outcome buffer :=
             else b_get b c p |}
   else Crash BroadcastError.
 
+(* the class refused since /repo e7c7a72 (before: silently wrong data): along
+   some axis the half chunk is exactly 1 and min(new chunk, new size) >= 3 *)
+Definition ax_f (os ns : Z) : Z := if os =? ns then 1 else 2.
+Definition forall3_4 (p : Z -> Z -> Z -> Z -> bool) (a b c d : t3) : bool :=
+  let '(a1, a2, a3) := a in let '(b1, b2, b3) := b in
+  let '(c1, c2, c3) := c in let '(d1, d2, d3) := d in
+  p a1 b1 c1 d1 && p a2 b2 c2 d2 && p a3 b3 c3 d3.
+Definition exists3_4 (p : Z -> Z -> Z -> Z -> bool) (a b c d : t3) : bool :=
+  negb (forall3_4 (fun w x y z => negb (p w x y z)) a b c d).
+Definition stretch_axis (os ns oc nc : Z) : bool :=
+  (oc / ax_f os ns =? 1) && (3 <=? Z.min nc ns).
+Definition stretch_class (g : geom) : bool :=
+  exists3_4 stretch_axis (g_os g) (g_ns g) (g_oc g) (g_nc g).
+
 Section Tiling.
 
 Variable ds : t3 -> arr -> arr.
@@ -158,6 +175,9 @@ Definition tile_chunk (g : geom) (lvl : arr) (idx : t3) : outcome (t3 * t3 * buf
 Definition tile_level (g : geom) (lvl : arr) : outcome (list (t3 * t3 * buffer)) :=
   if negb (eqb3 (g_ns g) (cdiv3 (g_os g) (factors g))) then Crash ValueError else
   if negb (forall3 (fun h => negb (h =? 0)) (half_chunk g)) then Crash ZeroDivisionError else
+  (* /repo e7c7a72: "Unsupported combination of chunk sizes", raised after
+     half_chunk / chunk_fetch_factor and before any chunk is read *)
+  if stretch_class g then Crash ValueError else
   mapM (tile_chunk g lvl) (ndindex (chunk_range g)).
 
 End Tiling.
@@ -166,8 +186,6 @@ End Tiling.
 
 (* per axis: os old size, ns new size, oc old chunk, nc new chunk;
    f, h as the code computes them *)
-Definition ax_f (os ns : Z) : Z := if os =? ns then 1 else 2.
-
 (* the transition is tiled exactly along this axis *)
 Definition compat_axis (os ns oc nc : Z) : bool :=
   let f := ax_f os ns in
@@ -178,13 +196,6 @@ Definition compat_axis (os ns oc nc : Z) : bool :=
       (((ns <=? nc) && (ns <=? 2 * h)) || ((nc mod h =? 0) && (nc <=? 2 * h))))).
 
 Definition sizes_ok (g : geom) : bool := eqb3 (g_ns g) (cdiv3 (g_os g) (factors g)).
-
-Definition forall3_4 (p : Z -> Z -> Z -> Z -> bool) (a b c d : t3) : bool :=
-  let '(a1, a2, a3) := a in let '(b1, b2, b3) := b in
-  let '(c1, c2, c3) := c in let '(d1, d2, d3) := d in
-  p a1 b1 c1 d1 && p a2 b2 c2 d2 && p a3 b3 c3 d3.
-Definition exists3_4 (p : Z -> Z -> Z -> Z -> bool) (a b c d : t3) : bool :=
-  negb (forall3_4 (fun w x y z => negb (p w x y z)) a b c d).
 
 Definition compat (g : geom) : bool :=
   geom_pos g && sizes_ok g && forall3_4 compat_axis (g_os g) (g_ns g) (g_oc g) (g_nc g).
@@ -201,13 +212,6 @@ Definition guard_axis (os ns oc nc : Z) : bool :=
 Definition tiling_guard (g : geom) : bool :=
   geom_pos g && forall3_4 guard_axis (g_os g) (g_ns g) (g_oc g) (g_nc g).
 
-(* the silent-wrong class named in the findings: a half chunk of exactly 1
-   (old chunk = factor) facing a new chunk extent of 3 or more *)
-Definition stretch_axis (os ns oc nc : Z) : bool :=
-  let f := ax_f os ns in
-  (oc =? f) && (3 <=? Z.min nc ns).
-Definition stretch_class (g : geom) : bool :=
-  exists3_4 stretch_axis (g_os g) (g_ns g) (g_oc g) (g_nc g).
 Definition zero_half_class (g : geom) : bool :=
   negb (forall3 (fun h => negb (h =? 0)) (half_chunk g)).
 
